@@ -1,5 +1,6 @@
 """Fact tables of the hashers, extracted as normal forms (DESIGN 3.8, C02.4 / C03.3 / C10 / C01.6)."""
 import ast
+import re
 
 from tfsa.loader import own_nodes, AnalysisError
 from tfsa.report import norm
@@ -840,8 +841,19 @@ def hybrid_facts(ctx, H):
     reads = [n for n in own_nodes(fn.node) if isinstance(n, ast.Assign) and isinstance(n.value, ast.Call) and isinstance(n.value.func, ast.Attribute) and n.value.func.attr == "readinto"]
     if len(data_up) == 1 and reads:
         a = data_up[0].args[0]
-        ok = isinstance(a.slice, ast.Slice) and a.slice.lower is None and norm(a.slice.upper) == norm(reads[0].targets[0]) and norm(a.value) == norm(reads[0].value.args[0])
-        F["v1.data"] = Fact("update(buf[:n]) with the block just read" if ok else "update(%s)" % norm(a), data_up[0], fn)
+        buf = norm(reads[0].value.args[0])
+        base = a.value
+        if isinstance(base, ast.Name) and norm(base) != buf:
+            # a view of the buffer (view = memoryview(buf), defined once): its slices are the buffer's
+            vd = [n for n in own_nodes(fn.node) if isinstance(n, ast.Assign) and len(n.targets) == 1 and isinstance(n.targets[0], ast.Name) and n.targets[0].id == base.id]
+            nst = [n for n in own_nodes(fn.node) if isinstance(n, ast.Name) and n.id == base.id and isinstance(n.ctx, ast.Store)]
+            if len(vd) == 1 and len(nst) == 1 and isinstance(vd[0].value, ast.Call) and norm(vd[0].value.func) == "memoryview" and len(vd[0].value.args) == 1:
+                base = vd[0].value.args[0]
+        ok = isinstance(a.slice, ast.Slice) and a.slice.lower is None and norm(a.slice.upper) == norm(reads[0].targets[0]) and norm(base) == buf
+        if not ok and isinstance(a.value, ast.Name) and norm(a.value) != buf and not (isinstance(a.slice, ast.Slice) and a.slice.lower is None and norm(a.slice.upper) != norm(reads[0].targets[0])):
+            F["v1.data"] = und("the SHA-1 update takes `%s`, a slice of `%s`, which is not the buffer `%s` the read fills; what that name holds was not followed" % (norm(a), norm(a.value), buf), data_up[0], fn)
+        else:
+            F["v1.data"] = Fact("update(buf[:n]) with the block just read" if ok else "update(%s)" % norm(a), data_up[0], fn)
     else:
         F["v1.data"] = und("sha1 data update not found", None, fn)
     # plength
@@ -1070,6 +1082,9 @@ def judge_facts(ctx, rid, who, facts, spec, accept=None, normalise=None, why="",
             ctx.holds(rid, f.fn, "%s: %s = %s" % (who, k, v), label)
         elif isinstance(v, str) and v.startswith("?"):
             ctx.undecided(rid, f.fn, "%s: %s has a shape the extractor does not understand: %s" % (who, k, v[1:]), label)
+        elif isinstance(v, str) and re.search(r"(?<![A-Za-z0-9_'\"])\?[A-Za-z_]", v):
+            # a part of the expression was not reduced (marked `?name` by the extractor): the text says nothing about it
+            ctx.undecided(rid, f.fn, "%s: %s is `%s`, of which the part marked `?` was not reduced to the quantities of the specification" % (who, k, v), label)
         elif reduced_attrs and isinstance(v, str) and isinstance(want, str) and _foreign_atoms(v, want):
             # the fact mentions a name the extractor could not reduce to the quantities the specification speaks of (an
             # attribute defined in a way it does not follow, a call of a helper): nothing can be said by comparing texts
